@@ -3,9 +3,13 @@ C03 — bzip2 decoding agrees with libbzip2, incl. concatenated streams.
 
 `Compress.Bzip2.Spec` is an executable reading of the bzip2 format (validated on
 every run against libbzip2 restarted per stream, Go's compress/bzip2 and this
-repository's Reader: family bz).  There is no Go-shaped model of bzip2.Reader's
-control flow; its stages (RLE1 with resumption, MTF, inverse BWT, CRC) are
-modelled and validated one by one (family bzst).  Property theorems only.
+repository's Reader: family bz).  `Compress.Bzip2.Impl` is the Go-shaped model of
+bzip2/reader.go + the reading half of bzip2/prefix.go (Read loop, err latch, the
+chunk closure, ReadPrefixCodes with the GeneratePrefixes fast path and
+handleDegenerateCodes, Decoder.Init tables), validated call by call (family bzr);
+its stages (RLE1 with resumption, MTF, inverse BWT, CRC) are shared with the
+specification or validated one by one (family bzst).  Property theorems only;
+proofs of the refinement in `Compress.Proofs.BzImpl*`.
 -/
 import Compress.Bzip2.Spec
 import Compress.Bzip2.Writer
@@ -13,6 +17,8 @@ import Compress.Proofs.Bzip2Stages
 import Compress.Proofs.Bzip2BWT
 import Compress.Proofs.Bzip2RoundTrip
 import Compress.Proofs.Bzip2Cut
+import Compress.Bzip2.Impl
+import Compress.Proofs.BzImplMain
 
 namespace Compress.Props.C03
 open Compress Compress.Bzip2 Compress.Proofs.Bzip2Stages
@@ -64,6 +70,111 @@ theorem C03_crc (bs : List UInt8) : crcUpdateGo 0 bs = blockCRC bs :=
 
 /-- deprecated features are refused as such: a block with the randomisation bit set. -/
 example : (match readBlock 1 (bitsBE 0 32 ++ [true]) with | .error v => v == Verdict.deprecated | .ok _ => false) = true := by
+  decide
+
+
+/-! ### refinement: the Go-shaped model of bzip2.Reader against the specification -/
+
+open Compress.Proofs.BzImpl in
+/-- **C03 (refinement).** For every byte string and EVERY schedule of `Read` buffer lengths (zeros
+    included; the run stops at the first error or when the schedule is used up) the reader model
+    `Bzip2.Impl` (Read loop over the resumable RLE1 stage, persistent error, stream header / block /
+    footer chunks with the CRC check deferred to the next chunk, `ReadPrefixCodes` with both table
+    paths, per-50-symbol tree switching, MTF, inverse BWT) relates to the format specification
+    `Bzip2.decode` (libbzip2's behaviour as a function) as follows:
+    the bytes delivered are a prefix of the reference output; an error - `io.EOF` included - is
+    returned only after ALL of the reference output; `io.EOF` exactly when the reference accepts;
+    deprecated exactly when the reference meets a bzip1 header or a randomised block; unexpected
+    EOF only where the reference runs out of input; what the reference calls corrupt is reported
+    corrupted.  The one class the two may disagree on is recorded in DESIGN.md: on an INVALID
+    stream whose damaged prefix code leaves a code word unassigned the Go tables reject that code
+    word as soon as it is determined ("corrupted"), the reference only after the longest code
+    length, so if the input ends in between the reference says "unexpected EOF"
+    (`ErrRel.early`); never the other way round, and never on an input the reference accepts or
+    calls deprecated.  Progress: a Read with a non-empty buffer delivers a byte or the error. -/
+theorem C03_refines_spec (bytes : List UInt8) (sched : List Nat) :
+    let r := Bzip2.Impl.run bytes sched
+    let s := Bzip2.decode bytes
+    r.delivered <+: s.out.toList ∧
+    (∀ e, r.err = some e → r.delivered = s.out.toList) ∧
+    (r.err = some .eof → s.verdict = .ok) ∧
+    (s.verdict = .ok → ∀ e, r.err = some e → e = .eof) ∧
+    (r.err = some .deprecated → s.verdict = .deprecated) ∧
+    (s.verdict = .deprecated → ∀ e, r.err = some e → e = .deprecated) ∧
+    (r.err = some .unexpectedEOF → s.verdict = .unexpectedEOF) ∧
+    (s.verdict = .corrupt → ∀ e, r.err = some e → e = .corrupted) ∧
+    (r.err = some .corrupted → s.verdict = .corrupt ∨ s.verdict = .unexpectedEOF) ∧
+    (s.out.size < (sched.filter (0 < ·)).length → r.err ≠ none) := by
+  have h := refines_of_tables (tablesAgree_of_degenerate tables_agree_degenerate) bytes sched
+  exact ⟨h.pref, h.all_before_error, h.eof_sound, h.eof_complete, h.deprecated_sound,
+    h.deprecated_complete, h.ueof_sound, h.corrupt_complete, h.corrupted_sound, h.progress⟩
+
+open Compress.Proofs.BzImpl in
+/-- **success iff the reference accepts**, for every schedule with enough non-empty Reads to reach
+    the end (one more than the output has bytes suffices): the run ends with `io.EOF` exactly when
+    the reference accepts, and then it delivered exactly the reference output. -/
+theorem C03_success_iff (bytes : List UInt8) (sched : List Nat)
+    (hs : (Bzip2.decode bytes).out.size < (sched.filter (0 < ·)).length) :
+    ((Bzip2.Impl.run bytes sched).err = some .eof ↔ (Bzip2.decode bytes).verdict = .ok) ∧
+    ((Bzip2.decode bytes).verdict = .ok →
+      (Bzip2.Impl.run bytes sched).delivered = (Bzip2.decode bytes).out.toList) := by
+  have h := refines_of_tables (tablesAgree_of_degenerate tables_agree_degenerate) bytes sched
+  have hne := h.progress hs
+  cases he : (Bzip2.Impl.run bytes sched).err with
+  | none => exact absurd he hne
+  | some e =>
+    refine ⟨⟨fun h1 => h.eof_sound (he ▸ h1), fun hv => by rw [h.eof_complete hv e he]⟩,
+      fun _ => h.all_before_error e he⟩
+
+open Compress.Proofs.BzImpl in
+/-- **sticky error (C09 for bzip2.Reader).** After the Read that returned an error, every later
+    Read, whatever its buffer length, returns no data and the same error and leaves the reader
+    unchanged. -/
+theorem C03_sticky_error (bytes : List UInt8) (sched : List Nat) (e : Bzip2.Impl.Err)
+    (h : (Bzip2.Impl.run bytes sched).err = some e) (m : Nat) :
+    Bzip2.Impl.read (Bzip2.Impl.readFuel (Bzip2.Impl.run bytes sched).final) m (Bzip2.Impl.run bytes sched).final =
+      ((Bzip2.Impl.run bytes sched).final, [], some e) :=
+  (refines_of_tables (tablesAgree_of_degenerate tables_agree_degenerate) bytes sched).sticky e h m
+
+open Compress.Proofs.BzImpl in
+/-- **independence of the Read sizes (C10 for bzip2.Reader).** Two schedules over the same input
+    deliver comparable byte strings; if both runs ended they delivered the same bytes and ended
+    with the same error. -/
+theorem C03_schedule_independent (bytes : List UInt8) (s1 s2 : List Nat) :
+    ((Bzip2.Impl.run bytes s1).delivered <+: (Bzip2.Impl.run bytes s2).delivered ∨
+      (Bzip2.Impl.run bytes s2).delivered <+: (Bzip2.Impl.run bytes s1).delivered) ∧
+    (∀ e1 e2, (Bzip2.Impl.run bytes s1).err = some e1 → (Bzip2.Impl.run bytes s2).err = some e2 →
+      (Bzip2.Impl.run bytes s1).delivered = (Bzip2.Impl.run bytes s2).delivered ∧ e1 = e2) :=
+  schedule_independent (tablesAgree_of_degenerate tables_agree_degenerate) bytes s1 s2
+
+open Compress.Proofs.BzImpl Compress.Proofs.Bzip2Cut in
+/-- **cut streams.** On any cut of an accepted input the reader model delivers only a prefix of
+    the full output and never reports deprecated; it reports `io.EOF` only where the cut is the end
+    of one of the concatenated streams.  (Not excluded by this theorem: "corrupted" instead of
+    "unexpected EOF" on such a cut - that would need `ErrRel.early` to be impossible on cuts of
+    accepted streams, which holds because an unassigned code word cannot be a prefix of an accepted
+    stream's code word, but is not proved here; the bzr/bz families compare the class on cuts.) -/
+theorem C03_cut_model (bytes : List UInt8) (out : Array UInt8)
+    (h : Bzip2.decode bytes = { out := out, verdict := .ok }) (k : Nat) (hk : k < bytes.length)
+    (sched : List Nat) :
+    (Bzip2.Impl.run (bytes.take k) sched).delivered <+: out.toList ∧
+    (Bzip2.Impl.run (bytes.take k) sched).err ≠ some .deprecated ∧
+    ((Bzip2.Impl.run (bytes.take k) sched).err = some .eof →
+      0 < k ∧ ∃ out2, Bzip2.decode (bytes.drop k) = { out := out2, verdict := .ok }) := by
+  have hr := refines_of_tables (tablesAgree_of_degenerate tables_agree_degenerate) (bytes.take k) sched
+  obtain ⟨hp, hv⟩ := decode_cut bytes out h k hk
+  refine ⟨hr.pref.trans hp, fun hd => ?_, fun he => ?_⟩
+  · have := hr.deprecated_sound hd
+    rcases hv with hv | ⟨hv, _⟩ <;> rw [hv] at this <;> cases this
+  · have := hr.eof_sound he
+    rcases hv with hv | ⟨_, h0, h2⟩
+    · rw [hv] at this; cases this
+    · exact ⟨h0, h2⟩
+
+/-- non-vacuity: the reader model on a tiny complete stream ("BZh9" + end magic + zero CRC) ends
+    with io.EOF after no data, on "BZ0" with deprecated. -/
+example : (Bzip2.Impl.run [0x42, 0x5a, 0x68, 0x39, 0x17, 0x72, 0x45, 0x38, 0x50, 0x90, 0, 0, 0, 0] [1]).err = some .eof ∧
+    (Bzip2.Impl.run [0x42, 0x5a, 0x30] [0, 5]).err = some .deprecated := by
   decide
 
 end Compress.Props.C03
